@@ -382,6 +382,9 @@ def _step_ok(st: Stencil, x, step, n, postab, coftab):
     tp, tc = _tabs(st.pos), _tabs(st.coeff)
     atom = {a: sp.Dummy(f"tab{i}") for i, a in enumerate(tp + [c for c in tc if c not in tp])}
     pos, coeff = st.pos.xreplace(atom), st.coeff.xreplace(atom)
+    # the shape arguments of reshape / expand_dims say nothing about the value: drop them (they may mention the array they reshape)
+    drop = lambda t: t.replace(lambda e: _fn(e, RESHAPE) or _fn(e, EXPAND), lambda e: e.func(e.args[0])) if isinstance(t, sp.Basic) else t
+    pos, coeff = drop(pos), drop(coeff)
     terms = sp.Add.make_args(sp.expand(pos))
     free = sp.Add(*[t for t in terms if not t.has(step)])
     rest = [t for t in terms if t.has(step)]
